@@ -310,6 +310,9 @@ def obligations(tier):
                     continue
                 obs.append(spinn_ob(kind, d, r, m, B))
             obs.append(spinn_ob(kind, d, 2, 2, 2 if d < 3 else 1, bare=True))
+    # many separable dimensions (create_SPINN accepts up to 24): one point per axis, embedding size 2
+    obs.append(spinn_ob("statio", 18, 2, 1, 1))
+    obs.append(spinn_ob("nonstatio", 20 if tier == "thorough" else 19, 2, 1, 1))
     for kind, d in (("ODE", 0), ("statio", 2), ("nonstatio", 1)):
         obs.append(hyper_ob(kind, d, 1, [()], False))
         if kind == "ODE":
